@@ -1622,7 +1622,10 @@ class BaseLoss(object):
                 raise AssertionError("Number of input " + object_contents + 
                                      " differs from " +
                                      "the number of observations")
-        return x
+        # always one row per observation and one column per observed state
+        # (a flat vector of n values for a single state stayed 1-D, which
+        # sens_to_grad and sens_to_jtj cannot broadcast against)
+        return np.reshape(x, (n, p))
 
     def _setX0(self, x0):
         """
